@@ -272,6 +272,7 @@ pub fn dispatch(t: &[&str]) -> Option<Out> {
         "s9_hash1" => Out::Ok(h(&gm_sm9::key::verif_key_hooks::hash1(&unhex(t[1]), u8::from_str_radix(t[2], 16).unwrap()))),
         "s9_hash2" => Out::Ok(h(&gm_sm9::key::verif_key_hooks::hash2(&unhex(t[1]), &unhex(t[2])))),
         "s9_kdf" => Out::Ok(hx(&gm_sm9::key::verif_key_hooks::kdf(&unhex(t[1]), t[2].parse().unwrap()))),
+        "s9_kdf_block" => { let b: usize = t[2].parse().unwrap(); let k = gm_sm9::key::verif_key_hooks::kdf(&unhex(t[1]), 32 * b); Out::Ok(hx(&k[32 * (b - 1)..])) }
         "s9_mac" => Out::Ok(hx(&gm_sm9::key::verif_key_hooks::mac(&unhex(t[1]), &unhex(t[2])))),
         // s9_extract sign|enc|exch <k> <id>
         "s9_extract" => match t[1] {
@@ -438,6 +439,38 @@ pub fn dispatch(t: &[&str]) -> Option<Out> {
             };
             let l = log_str();
             Out::Ok(format!("{} {}", out, l))
+        }
+        // s9_rngthreads <threads> <per-thread>: the scalars drawn by several threads of one process must all differ
+        // (each thread records its own draws through the thread-local recorder)
+        "s9_rngthreads" => {
+            let nt: usize = t[1].parse().unwrap();
+            let per: usize = t[2].parse().unwrap();
+            let mut hs = vec![];
+            for _ in 0..nt {
+                hs.push(std::thread::spawn(move || {
+                    vh::clear();
+                    let mut v: Vec<U256> = vec![];
+                    let me = Sm9EncMasterKey::master_key_generate();
+                    v.extend(vh::take_log());
+                    for i in 0..per {
+                        match i % 3 {
+                            0 => { let _ = Sm9SignMasterKey::master_key_generate(); }
+                            1 => { let _ = gm_sm9::key::exch_step_1a(&me, b"Bob"); }
+                            _ => { let _ = me.encrypt(b"Bob", &[7, i as u8]); }
+                        }
+                        v.extend(vh::take_log());
+                    }
+                    v
+                }));
+            }
+            let mut all: Vec<U256> = vec![];
+            vh::clear();
+            let _ = Sm9EncMasterKey::master_key_generate();
+            all.extend(vh::take_log());
+            for h_ in hs { all.extend(h_.join().unwrap()); }
+            let total = all.len();
+            all.sort(); all.dedup();
+            Out::Ok(format!("drawn>={} distinct={}", (total >= nt * (per + 1)) as u8, (all.len() == total) as u8))
         }
         "s9_rngstats" => {
             let n: usize = t[1].parse().unwrap();
